@@ -33,7 +33,7 @@ func (e *C20) Plan(tier string, seed uint64) int {
 	if tier == "thorough" {
 		return 20000
 	}
-	return 400
+	return 3000
 }
 
 var c20Ratios = []image.YCbCrSubsampleRatio{image.YCbCrSubsampleRatio444, image.YCbCrSubsampleRatio422, image.YCbCrSubsampleRatio420,
